@@ -49,7 +49,7 @@ func (p *Prog) inlineNewHelpers() {
 				if !ok || fd.Body == nil || fd.Name.Name == "init" || fd.Name.Name == "main" {
 					continue
 				}
-				if knownFuncs[fnName(short(pk.PkgPath), fd)] {
+				if knownFuncs[fnName(short(pk.PkgPath), fd)] || p.isRenamedSuccessor(fd) {
 					continue
 				}
 				if o := pk.TypesInfo.Defs[fd.Name]; o != nil && in.inlinable(fd, pk.TypesInfo) {
